@@ -248,7 +248,10 @@ func runCheck(p *Prog, prop, tier string, timeout, workers int, verbose bool) in
 			out.Violations = append(out.Violations, o.Name)
 			exit = 1
 		} else {
+			// a new obligation (not in the committed baseline) that no solver decided:
+			// undecided, not counted among the obligations of this proof
 			out.Undecided = append(out.Undecided, o.Name+" ("+o.Result+")")
+			total--
 		}
 	}
 	// obligations that existed at baseline but vanished (function removed/renamed, contract key dangling)
